@@ -43,8 +43,17 @@ def generate(ctx, module_e, module_sim, sim_num, sim_depth, e_sample=None, sim_w
     if module_sim and sim_num > 0:
         per = max(1, sim_num // sim_workers)
         module_sim, cfg_sim = _mc(module_sim)
-        r = tlc.run(module_sim, cfg=cfg_sim, mode="sim", workers=sim_workers, num=per, depth=sim_depth,
-                    seed=ctx.seed + 1, timeout=sim_timeout)
+        r = None
+        for attempt in range(3):
+            try:
+                r = tlc.run(module_sim, cfg=cfg_sim, mode="sim", workers=sim_workers, num=per, depth=sim_depth,
+                            seed=ctx.seed + 1 + 7919 * attempt, timeout=sim_timeout)
+                break
+            except tlc.TLCError as e:
+                # an arithmetic overflow inside TLC is machinery, not a verdict: re-draw the behaviours
+                if "Overflow" not in str(e) or attempt == 2:
+                    raise
+                ctx.notes.append("TLC overflow in %s (seed attempt %d), behaviours re-drawn" % (cfg_sim or module_sim, attempt))
         if r.violation:
             return None, {"tlc_violation": r.violation, "module": module_sim}
         stats["states"] += r.states      # simulation: states visited along behaviours
